@@ -17,21 +17,46 @@ LEVEL_NOTE = ("modelled, not verified: scheduler/api.py initialize/plan, schedul
 TECHNIQUE = "Lean 4 inductive system invariant (StoreSound + fetch pipeline) over a small-step transition system, with differential state correspondence against the real controller driven through SimBridge"
 LEAN_PROPS = ["EkwVerif.Props.C01"]
 LEAN_DRIVERS = ["Ctrl"]
-RULE = ctrl_check.RULE + (" || real-cluster runs: random jobs of 2-6 real callables (ints/strings/tuples built injectively from every bound parameter; static "
-                          "and upstream inputs by position and by keyword, keyword edges into parameters with a default, 2-3-output generator tasks "
-                          "whose output names are declared in non-sorted order, consumers of non-last outputs, fan-out, dotted task names, a random "
-                          "subset of requested outputs incl. non-sinks) built with TaskBuilder.from_callable/JobBuilder, run by the real "
-                          "controller.impl.run + Bridge + forked executors (zmq tcp, shm) on 1-2 hosts x 1-2 workers; every requested value is "
-                          "compared with a sequential interpreter of the JobInstance; each run counts as a non-trivial case")
+RULE = ctrl_check.RULE + (" || real-cluster runs (8 quick / 48 thorough, three at a time in background threads): random jobs of 2-8 real callables (12-16 in the "
+                          "wide family) whose values are ints/strings/tuples/bytes/NumPy arrays (int64/float64/uint16/big-endian, 0-d to 2-d, "
+                          "non-contiguous views)/Box (a type that refuses pickle and travels only through the serde pair the job registers in "
+                          "JobInstance.serdes), built injectively from every bound parameter; static and upstream inputs by position and by keyword, "
+                          "keyword edges into parameters with a default, 2-3-output generator tasks whose output names are declared in non-sorted "
+                          "order, consumers of non-last outputs, fan-out, dotted task names, two datasets whose task+output names concatenate to the "
+                          "same string, a random subset of requested outputs incl. non-sinks; built with TaskBuilder.from_callable/JobBuilder, run by "
+                          "the real controller.impl.run + Bridge + forked executors (zmq tcp, shm) on 1-3 hosts x 1-3 workers (workers+1 source tasks "
+                          "on several hosts, so that inter-host transfers happen), with CASCADE_GPU_COUNT set and needs_gpu tasks (family gpu; family "
+                          "wide-gpu: 1 host x 11-13 GPU workers, one GPU task for each), a linear chain on one host (family chain: purges while later "
+                          "tasks run); one case of every family in the quick tier, topped up until the tier has seen an inter-host transfer and a "
+                          "purge. Every requested value is compared (type, dtype and shape included) with a sequential interpreter of the "
+                          "JobInstance; from a trace written by the task bodies, the harness-side executor launcher and a log of the Bridge commands "
+                          "(nothing of the controller's State) the oracle also decides: a task body is entered at most once and in the process of "
+                          "the worker the controller dispatched it to; a GPU task can use an existing device that no other worker running a GPU task "
+                          "on that host can use; purges reach the workers (>= 3 sightings, >= 3/4 stale); and, over the commands issued to / events "
+                          "returned by the real Bridge in the controller's order (C04's clauses on a real cluster): a transfer or fetch names a source "
+                          "from which a DatasetPublished had arrived and whose purge had not been commanded, a purge comes only after every consumer "
+                          "announced all its outputs, after the value of a requested dataset arrived, and not while a transfer/fetch commanded from "
+                          "that host is unanswered; a DatasetTransmitFailure or a dead data server surfaces as real-cluster-error. Counts of "
+                          "sequences/transfers/fetches/purges per run are printed; each run counts as a non-trivial case")
 ASSUMPTIONS = list(ctrl_check.ASSUMPTIONS) + [
-    "real-cluster runs: a run that does not end by the deadline (30 s) or raises counts only if an immediate re-run of the same case does not end cleanly either "
-    "(a fork-with-threads deadlock at cluster start-up under heavy machine load is outside C01); wrong or missing values always count",
+    "real-cluster runs: wrong or missing values and the trace verdicts (wrong worker, body entered twice, GPU device missing/shared, purge not applied) always count. "
+    "A run that raises, or whose controller.impl.run does not return within 25 s of its start, is run again at once: the verdict is reported when it shows again, and "
+    "ALSO when it does not show again but the job had started in the failing run (cluster past the start-up gate, a task body entered) -- then with "
+    "\"reproduced\": false and both runs in the replay. It is dropped (and counted as real:flaky-startup-*) only when no task body had been entered. A cluster "
+    "that is not up within 20 s (a forked helper can deadlock in fork-with-threads under heavy machine load) is started again, up to 3 times; a cluster that "
+    "never comes up is reported as real-cluster-hang where=start-up",
+    "real-cluster runs: below the executor the code sends local messages (worker <-> executor, ipc) through fresh PUSH sockets with a 1 s linger and no "
+    "acknowledgement (comms.callback): a process that is not scheduled for more than a second loses such a message and the job stalls. Machine load of that "
+    "kind is outside C01; the check limits itself to three concurrent clusters",
 ]
 
 
 def correspond(ctx):
-    ctrl_check.correspond(ctx, PROPERTY)
-    c01_real.correspond_real(ctx)
+    real = c01_real.start_real(ctx)          # real-cluster runs: background threads (they wait for subprocesses) while the SimBridge part runs
+    try:
+        ctrl_check.correspond(ctx, PROPERTY)
+    finally:
+        c01_real.finish_real(ctx, real)
 
 
 def replay(payload):
